@@ -285,6 +285,23 @@ def run(prop, tier, seed, update_lock=False, verbose=False):
                 f"{name}: solver={r}, candidate model "
                 f"{'found' if model is not None else 'not found'}, "
                 f"replay did not confirm")
+    # ---- undecided parts: bounded search on the real code -----------------
+    if result["undecided"] and hasattr(mod, "bounded"):
+        try:
+            rp = mod.bounded(uni, tier, seed)
+        except Exception as err:      # noqa
+            rp = {"confirmed": False, "error": repr(err)}
+        if rp and rp.get("confirmed"):
+            kf = match_known(open_known, "bounded", rp)
+            if kf is None:
+                payload = {"property": prop,
+                           "obligation": "bounded-search (deductive part "
+                                         "undecided: " +
+                                         "; ".join(result["undecided"])[:500]
+                                         + ")",
+                           "replay": rp}
+                path = write_replay(prop, "bounded-search", payload)
+                result["violations"].append(("bounded-search", path, ""))
     for ex in extras:
         if ex.ok:
             continue
